@@ -210,11 +210,34 @@ def u_seeds(ctx, u):
         for i, d, rec in res['proxy'].records:
             put(9, rec)
         T.close_pair(res)
+    # structured mutants: the valid DER seeds with every field resized and every enclosing length recomputed
+    # (vf.ref.der.resize_mutants) - what byte-level mutation practically never produces
+    from ..ref import der as D
+    scnt = {}
+    for t in (1, 2, 3, 4, 5, 6, 7, 10):
+        sdir = os.path.join(root, 'seed-%d' % t)
+        odir = os.path.join(root, 'struct-%d' % t)
+        os.makedirs(odir, exist_ok=True)
+        big = 0
+        for fn in sorted(os.listdir(sdir)) if os.path.isdir(sdir) else []:
+            with open(os.path.join(sdir, fn), 'rb') as f:
+                data = f.read()
+            for note, m in D.resize_mutants(data):
+                if len(m) > 60000:
+                    big += 1
+                    if big > 60:
+                        continue
+                if scnt.get(t, 0) >= 4000:
+                    break
+                scnt[t] = scnt.get(t, 0) + 1
+                with open(os.path.join(odir, 'm%05d' % scnt[t]), 'wb') as f:
+                    f.write(m)
+    ctx.stat('structured_mutant_files', sum(scnt.values()))
     ctx.ok()
     for t, n in cnt.items():
         ctx.nontrivial('seeds', t, n)
     ctx.stat('seed_files', sum(cnt.values()))
-    ctx.sample({'kind': 'seeds', 'files_per_target': cnt})
+    ctx.sample({'kind': 'seeds', 'files_per_target': cnt, 'structured_mutants_per_target': scnt})
 
 
 # ---- hostile peer ---------------------------------------------------------------------
@@ -518,7 +541,7 @@ def main(run):
         run.inconclusive_because('seed generation failed')
         return
     q = run.tier == 'quick'
-    runs = 60000 if q else 2000000
+    runs = int(os.environ.get('VF_C06_RUNS', 0)) or (60000 if q else 2000000)      # VF_C06_RUNS: development aid
     try:
         exes = {t: _compile('fuzz', 'clang-14', FUZZ_SAN, t, [], 'fuzz') for t in TARGETS}
     except Exception as e:
@@ -606,6 +629,40 @@ def main(run):
     run.evaluations += total_exec
     run.extra['fuzz'] = {TARGETS[t]: st for t, st in stats.items()}
     run.sample({'kind': 'fuzz', 'runs_per_target': runs, 'runs_sm9_target': runs // 10, 'stats': {TARGETS[t]: st for t, st in list(stats.items())[:4]}})
+    # ---- prong 1b: the structured mutants, each executed once and whole by the ASan+UBSan fuzz binaries -----------
+    sreplayed = 0
+    for t in TARGETS:
+        sdir = os.path.join(seeds, 'struct-%d' % t)
+        files = [os.path.join(sdir, f) for f in sorted(os.listdir(sdir))] if os.path.isdir(sdir) else []
+        todo = [files[i:i + 400] for i in range(0, len(files), 400)]
+        while todo:
+            chunk = todo.pop()
+            if not chunk:
+                continue
+            try:
+                p = subprocess.run([exes[t], '-timeout=20', '-rss_limit_mb=3000'] + chunk, env=env, stdout=subprocess.PIPE, stderr=subprocess.STDOUT,
+                                   timeout=1800, cwd=run.workdir)
+            except subprocess.TimeoutExpired:
+                run.violation('C06:hang:structured-replay-%s' % TARGETS[t], {'files': chunk[:3]})
+                continue
+            if p.returncode == 0:
+                sreplayed += len(chunk)
+                continue
+            if len(chunk) > 1:
+                mid = len(chunk) // 2
+                todo.append(chunk[:mid])
+                todo.append(chunk[mid:])
+                continue
+            text = p.stdout.decode(errors='replace')
+            key = core.sanitizer_key(text) or ('hang:structured-%s' % TARGETS[t] if 'libFuzzer: timeout' in text else
+                                                'crash:rc=%s:structured-%s' % (p.returncode, TARGETS[t]))
+            data = open(chunk[0], 'rb').read()
+            run.sanitizer_reports += 1
+            run.violation('C06:%s' % key, {'target': TARGETS[t], 'input_hex': data[:4096].hex(), 'input_len': len(data), 'sanitizer': text[-9000:],
+                                          'unit': {'kind': 'structured', 'target': t}})
+            sreplayed += 1
+    run.evaluations += sreplayed
+    run.stat('structured_mutants_replayed', sreplayed)
     # ---- prong 2: MemorySanitizer replay of every corpus ---------------------------------
     try:
         mex = {t: _compile('msan', 'clang-14', MSAN_SAN, t, ['-DVF_DRIVER'], 'msan') for t in TARGETS}
@@ -619,7 +676,7 @@ def main(run):
     for t in TARGETS:
         logp = os.path.join(run.workdir, 'msan-%d' % t)
         env2['MSAN_OPTIONS'] = 'halt_on_error=1:exitcode=78:log_path=%s' % logp
-        dirs = [os.path.join(seeds, 'corp-%d' % t), os.path.join(seeds, 'seed-%d' % t)]
+        dirs = [os.path.join(seeds, 'corp-%d' % t), os.path.join(seeds, 'seed-%d' % t), os.path.join(seeds, 'struct-%d' % t)]
         # one process per corpus: on a report the offending file is found by bisection over the file list
         files = [os.path.join(d, f) for d in dirs if os.path.isdir(d) for f in sorted(os.listdir(d))]
         todo = [files]
@@ -654,3 +711,55 @@ def main(run):
             replayed += 1
     run.evaluations += replayed
     run.stat('msan_replayed_files', replayed)
+    # ---- prong 2b (thorough): valgrind memcheck replay of every corpus on an uninstrumented build ------------------
+    # a different allocator and shadow model than ASan/MSan: no red-zone geometry, freed blocks never reused while the
+    # quarantine lasts, byte-exact definedness; the driver is the same one the MSan replay uses
+    if run.tier != 'quick':
+        try:
+            vex = {t: _compile('plain-static', 'gcc', '', t, ['-DVF_DRIVER'], 'memcheck') for t in TARGETS}
+        except Exception as e:
+            run.inconclusive_because('memcheck driver build: ' + str(e)[-2000:])
+            return
+        run.flavours_used.add('plain-static')
+        from concurrent.futures import ThreadPoolExecutor
+
+        def vg(job):
+            t, files, idx = job
+            logp = os.path.join(run.workdir, 'memcheck-%d-%d.log' % (t, idx))
+            cmd = ['valgrind', '-q', '--error-exitcode=79', '--errors-for-leak-kinds=none', '--leak-check=no', '--log-file=' + logp,
+                   vex[t]] + files
+            try:
+                p = subprocess.run(cmd, env=env2, stdout=subprocess.PIPE, stderr=subprocess.DEVNULL, timeout=3000, cwd=run.workdir)
+                return t, files, logp, p.returncode
+            except subprocess.TimeoutExpired:
+                return t, files, logp, 'timeout'
+        jobs = []
+        for t in TARGETS:
+            dirs = [os.path.join(seeds, 'corp-%d' % t), os.path.join(seeds, 'seed-%d' % t), os.path.join(seeds, 'struct-%d' % t)]
+            files = [os.path.join(d, f) for d in dirs if os.path.isdir(d) for f in sorted(os.listdir(d))]
+            per = 40 if TARGETS[t] == 'sm9' else 150
+            for i in range(0, len(files), per):
+                jobs.append((t, files[i:i + per], i // per))
+        vreplayed = 0
+        with ThreadPoolExecutor(max_workers=run.nworkers) as ex:
+            for t, files, logp, rc in ex.map(vg, jobs):
+                if rc == 0:
+                    vreplayed += len(files)
+                    continue
+                if rc == 'timeout':
+                    run.inconclusive_because('memcheck replay watchdog: target %s' % TARGETS[t])
+                    continue
+                try:
+                    text = open(logp, errors='replace').read()
+                except OSError:
+                    text = ''
+                m = re.search(r'==\d+== (Invalid (?:read|write|free)[^\n]*|Conditional jump[^\n]*|Use of uninitialised[^\n]*|Syscall param[^\n]*|'
+                              r'Source and destination overlap[^\n]*|Mismatched free[^\n]*|Process terminating[^\n]*)', text)
+                fm = re.findall(r'==\d+==\s+(?:at|by) 0x[0-9A-F]+: (\w+) \((\w+\.c):\d+\)', text)
+                fn = next((f for f, src in fm if src not in ('fuzz_targets.c', 'vfshim.c')), 'unknown')
+                kind = re.sub(r'[^a-z]+', '-', (m.group(1) if m else 'rc=%s' % rc).lower().split(' of size')[0]).strip('-')[:40]
+                run.sanitizer_reports += 1
+                run.violation('C06:memcheck:%s:%s' % (kind, fn), {'target': TARGETS[t], 'files': files[:5], 'sanitizer': text[:9000],
+                                                                 'unit': {'kind': 'memcheck', 'target': t}})
+        run.evaluations += vreplayed
+        run.stat('memcheck_replayed_files', vreplayed)
